@@ -52,8 +52,8 @@ BOUNDS = {
                                       "extras (66 712 graphs per order), 6-node chain and one VERIF_SEED-chosen random "
                                       "spanning tree with <= 4 extras (15 276 each), 8-node chain with <= 3 extras "
                                       "(19 650), and for n = 6, 7, 8 two VERIF_SEED-chosen 12-element candidate subsets "
-                                      "with all 4 096 subsets each; jobs time-boxed at SPARSE_BUDGET_S=150 s",
-                 "time box": "each 5-node job stops after THOROUGH_BUDGET_S=90 s; a job that did not drain its queue is "
+                                      "with all 4 096 subsets each; jobs time-boxed at SPARSE_BUDGET_S=60 s",
+                 "time box": "each 5-node job stops after THOROUGH_BUDGET_S=60 s; a job that did not drain its queue is "
                              "reported in evidence (per_harness: 'TIME-BOXED: k paths explored, m subtrees left', "
                              "coverage.exhaustive=false); on an idle 16-core machine all jobs drain (about 5 min), "
                              "VERIF_SEED permutes the edge decision order, i.e. which part is explored first"},
@@ -77,8 +77,8 @@ ASSUMPTIONS = [
 ]
 SHIMS_USED = ["isinstance"]
 JOB_TIMEOUT = {"quick": 170, "thorough": 1700}
-SPARSE_BUDGET_S = 150         # per sparse-family job (6..8 nodes)
-THOROUGH_BUDGET_S = 90        # per 5-node job (about 250 jobs over 16 processes: <= 25 min in total)
+SPARSE_BUDGET_S = 60          # per sparse-family job (6..8 nodes; about 200 jobs)
+THOROUGH_BUDGET_S = 60        # per 5-node job (about 250 jobs); all time-boxed jobs together: <= 28 min on 16 processes
 
 
 def _pairs(n, selfloops, sink=None, seed=0):
